@@ -81,6 +81,7 @@ class State:
         self.notes = None
         self.paths = {}         # oid -> access path from the unit's parameters ("self.factory")
         self.ghost = None
+        self._chk = (0, None)   # (n, id of pc[n-1]): pc[:n] is known to contain no literal False
 
     def copy(self):
         s = State()
@@ -93,10 +94,12 @@ class State:
         s.notes = self.notes
         s.paths = self.paths
         s.ghost = self.ghost
+        s._chk = self._chk
         return s
 
     def become(self, other):
         self.frames, self.heap, self.pc, self.sheap = other.frames, other.heap, other.pc, other.sheap
+        self._chk = other._chk
 
     @property
     def frame(self):
@@ -114,7 +117,16 @@ class State:
         return VRef(oid)
 
     def dead(self):
-        return any(is_false(t) for t in self.pc)
+        # incremental scan: the checked prefix is identified by its length and its last element
+        n, last = self._chk
+        pc = self.pc
+        if n > len(pc) or (n > 0 and pc[n - 1].get_id() != last):
+            n = 0
+        for i in range(n, len(pc)):
+            if is_false(pc[i]):
+                return True
+        self._chk = (len(pc), pc[-1].get_id() if pc else None)
+        return False
 
 
 class Outcome:
